@@ -165,6 +165,24 @@ pub fn run(prop: &'static str, args: &Args) -> i32 {
     ];
     let mut viol = run_sweep(args, &mut ev, &cases, &|c| check_case(prop, c));
     if prop == "C04" {
+        // the module as it reaches the disk: rewritten in place over an older, longer build it must be
+        // the module that was emitted, with nothing of the old file left behind
+        let fcases: Vec<Case> = ms.iter().filter(|m| ["minimal", "fixtures"].contains(&m.family)).map(|m| Case::of(m).with(json!({"via_file": true}))).collect();
+        let verif = args.verif.clone();
+        viol.extend(run_sweep(args, &mut ev, &fcases, &|c| {
+            let mut r = CaseResult::default();
+            if wmodel::validate214(&c.wasm, FeatureSet::DEFAULT).is_err() {
+                return r;
+            }
+            r.valid_input = true;
+            r.transitions = 1;
+            if let Some(d) = crate::props::bisim::file_output_differs(&c.wasm, false, &verif) {
+                r.violations.push(Violation::new("C04", "module-on-disk-is-not-the-emitted-module", d, c));
+            }
+            r
+        }));
+    }
+    if prop == "C04" {
         // "nothing is added, dropped, duplicated or retargeted unless asked to": additions made
         // through the edit API must leave everything that was there before as it was
         viol.extend(crate::props::edits::run_model_as("C04", args, &mut ev));
@@ -179,6 +197,9 @@ pub fn run(prop: &'static str, args: &Args) -> i32 {
 fn recheck(prop: &'static str, c: &Case) -> Vec<Violation> {
     if c.cfg.get("edits").is_some() {
         return crate::props::edits::recheck_as("C04", c);
+    }
+    if c.cfg.get("via_file").is_some() {
+        return crate::props::bisim::file_output_differs(&c.wasm, false, std::path::Path::new("/verif")).into_iter().map(|d| Violation::new("C04", "module-on-disk-is-not-the-emitted-module", d, c)).collect();
     }
     check_case(prop, c).violations
 }
